@@ -35,15 +35,40 @@ MANIFEST = dict(
 
 
 def run_corpus(ck):
+    """corpus/C17/*.json first: one entry per listed finding (`seed_file` names a hand seed under harness/specs, or the
+    entry carries `specs` itself), so that every finding is re-confirmed -- or seen to be gone -- on every run"""
     d = os.path.join(core.VERIF, 'corpus', ck.prop)
+    seeds = {}
+    for c in decl_swift.seed_cases():
+        seeds.setdefault(c['origin'].split(':', 1)[1], c)
     for path in sorted(glob.glob(os.path.join(d, '*.json'))):
         rec = json.load(open(path))
-        case = rec.get('case', rec)
+        case = dict(rec.get('case', rec))
+        if 'seed_file' in case:
+            base = seeds.get(case['seed_file'])
+            if base is None:
+                ck.broken.append({'kind': 'harness', 'name': 'corpus', 'detail': 'missing seed %s' % case['seed_file']})
+                continue
+            case = {'specs': base['specs'], 'opts': case.get('opts') or base['opts'], 'seed_file': case['seed_file']}
         ck.stat('corpus.cases')
         res = decl_swift.eval_case({'origin': 'corpus:' + os.path.basename(path), 'specs': case['specs'],
                                     'opts': case.get('opts')})
+        if 'compile_error' in res:
+            ck.note('corpus %s: the spec is no longer accepted (%s)' % (os.path.basename(path), res['compile_error'][:80]))
+            ck.stat('corpus.no_longer_accepted')
+            continue
+        expect = rec.get('expect')
+        hit = False
         for what, sig, detail in res.get('problems', []):
-            ck.failing_input(what, sig, dict(case, detail=detail))
+            if expect and all(sig.get(k) == v for k, v in expect.items()):
+                hit = True
+            ck.failing_input(what, sig, {'suite': 'decl.swift.spec', 'origin': 'corpus:' + os.path.basename(path),
+                                         'specs': case['specs'], 'opts': case.get('opts'), 'detail': detail})
+        ck.case(('corpus', os.path.basename(path)), True)
+        if expect:
+            ck.stat('corpus.reconfirmed' if hit else 'corpus.not_reproduced')
+            if not hit:
+                ck.note('corpus %s: finding %s did not reproduce' % (os.path.basename(path), rec.get('finding')))
 
 
 def run(ck):
